@@ -44,6 +44,8 @@ theorem setPathX_plain (strict inPlace : Bool) (v : Ref) : ∀ (p : Path) (h : H
     | skip => rfl
     | str s =>
       simp only [List.map_cons, setPathX, setPath, hfun, mapM_unK]
+    | obj s =>
+      simp only [List.map_cons, setPathX, setPath, hfun, mapM_unK]
     | idx i =>
       simp only [List.map_cons, setPathX, setPath, hfun, mapM_unK]
     | int i =>
@@ -72,6 +74,8 @@ theorem ndWalkX_plain (h : Heap) (b : Ref) : ∀ (p : Path) (off : Nat) (shape :
       | skip =>
         simp only [List.map_cons, ndWalkX, ndWalk, PKey.asInt]
       | str s =>
+        simp only [List.map_cons, ndWalkX, ndWalk, PKey.asInt]
+      | obj s =>
         simp only [List.map_cons, ndWalkX, ndWalk, PKey.asInt]
       | idx i =>
         simp only [List.map_cons, ndWalkX, ndWalk, PKey.asInt]
@@ -107,6 +111,13 @@ theorem getVX_plain (h : Heap) : ∀ (p : Path) (r : Ref), getVX h r (p.map XKey
         cases n <;> simp only [← List.map_cons, hnd] <;> (try rfl)
         all_goals (simp only [Node.slotGet]; split <;> simp_all)
     | str s =>
+      simp only [List.map_cons, getVX, getV]
+      cases h[r]? with
+      | none => rfl
+      | some n =>
+        cases n <;> simp only [← List.map_cons, hnd] <;> (try rfl)
+        all_goals (simp only [Node.slotGet]; split <;> simp_all)
+    | obj s =>
       simp only [List.map_cons, getVX, getV]
       cases h[r]? with
       | none => rfl
